@@ -55,10 +55,27 @@ def gen_case(rng, tier, idx, fill=False):
     mode = rng.choice(["regular", "jitter", "dups", "gaps", "gaps"] if not fill else ["gaps", "gaps", "gaps", "gaps", "jitter", "dups"])
     rows = streams.make_rows(rng, n, rng.choice(["walk", "walk", "flat_runs", "zero_vol", "spiky"]), step, mode, tf_s,
                              max_gap_buckets=12 if fill else 60)
+    long_gap = False
+    if fill and len(rows) >= 16 and rng.random() < 0.03:
+        # one very long gap (more than a thousand buckets) in a short stream: still cheap, and contiguity must hold across it
+        from datetime import datetime, timedelta
+        long_gap = True
+        n = rng.randint(6, 16)
+        rows = rows[:n]
+        k = rng.randint(2, n - 2)
+        shift = timedelta(seconds=tf_s * rng.randint(1001, 1400) + rng.choice([0, 1, step]))
+        for r in rows[k:]:
+            r[0] = (datetime.fromisoformat(r[0]) + shift).isoformat()
     sch = schedules.rand_schedule(rng, n, bucket=max(1, tf_s // step), encs=("candle", "dict", "list"))
     sch["precalc"] = False
-    return {"rows": rows, "tf": tf, "entry": rng.choice(["manager", "manager", "indicator", "hexital_member", "hexital_level", "hexital_members2"]),
-            "schedule": sch, "extra_passes": rng.choice([0, 0, 0, 1, 2, 3]), "ts_mode": mode, "fill": fill, "tf_enum": rng.random() < 0.25}
+    lifespan = None
+    entry = rng.choice(["manager", "manager", "indicator", "hexital_member", "hexital_level", "hexital_members2"])
+    if fill and not long_gap and rng.random() < 0.15:
+        # a lifespan on top of filling: the retained candles must still be the (contiguous) tail of the reference
+        lifespan = tf_s * rng.randint(8, 20) + rng.choice([0, 1, tf_s // 2])
+        entry = rng.choice(["manager", "indicator", "hexital_level"])  # (member timeframes + lifespan at construction: recorded C08 finding)
+    return {"rows": rows, "tf": tf, "entry": entry, "lifespan_s": lifespan,
+            "schedule": sch, "extra_passes": rng.choice([0, 0, 0, 1, 2, 3]), "ts_mode": mode if not long_gap else "long_gap", "fill": fill, "tf_enum": rng.random() < 0.25}
 
 
 def coarser(tf):
@@ -77,16 +94,17 @@ def tf_arg(tf, as_enum):
 
 
 class Target:
-    def __init__(self, entry, tf, fill, candles, as_enum=False):
+    def __init__(self, entry, tf, fill, candles, as_enum=False, lifespan=None):
         self.entry = entry
         self.extra = []
+        lk = {"candles_lifespan": timedelta(seconds=lifespan)} if lifespan else {}
         tf_key = tf
         tf = tf_arg(tf, as_enum)
         if entry == "manager":
-            self.obj = CandleManager(candles, timeframe=tf, timeframe_fill=fill)
+            self.obj = CandleManager(candles, timeframe=tf, timeframe_fill=fill, **lk)
             self.mgr = self.obj
         elif entry == "indicator":
-            self.obj = HighLowAverage(candles=candles, timeframe=tf, timeframe_fill=fill)
+            self.obj = HighLowAverage(candles=candles, timeframe=tf, timeframe_fill=fill, **lk)
             self.mgr = self.obj.candle_manager
         elif entry == "hexital_member":
             self.obj = Hexital("t", candles, [SMA(period=3, timeframe=tf)], timeframe_fill=fill)
@@ -98,7 +116,7 @@ class Target:
             self.mgr = self.obj._candles[tf_key.upper()]
             self.extra = [(tf2, self.obj._candles[tf2.upper()])]
         elif entry == "hexital_level":
-            self.obj = Hexital("t", candles, [SMA(period=3)], timeframe=tf, timeframe_fill=fill)
+            self.obj = Hexital("t", candles, [SMA(period=3)], timeframe=tf, timeframe_fill=fill, **lk)
             self.mgr = self.obj._candles["default"]
         else:
             raise ValueError(entry)
@@ -169,11 +187,17 @@ def run_case(case):
             viol.append({"monitor": "structural-invariant", "sig": f"{prop}|{st[0]}|{entry}",
                          "detail": f"{where}: {st[0]} at bucket {st[1]}: {short(got[max(0, st[1] - 1):st[1] + 2], 400)}"})
             return False
-        if sum(g[5] for g in got) != sum(r[5] for r in drows[:consumed]):
+        if not case.get("lifespan_s") and sum(g[5] for g in got) != sum(r[5] for r in drows[:consumed]):
             viol.append({"monitor": "volume-conservation", "sig": f"{prop}|volume-not-conserved|{entry}",
                          "detail": f"{where}: sum(volume) buckets={sum(g[5] for g in got)} rows={sum(r[5] for r in drows[:consumed])}"})
             return False
         want = resample(drows[:consumed], tf, fill)
+        if case.get("lifespan_s"):
+            # which candles are retained is C15's business; here: what is retained is the tail of the filled reference
+            if len(got) > len(want) or (want and not got):
+                viol.append({"monitor": "online-resample-reference", "sig": f"{prop}|bucket-count|{entry}|lifespan", "detail": f"{where}: {len(got)} candles retained, reference has {len(want)}"})
+                return False
+            want = want[len(want) - len(got):]
         d = compare(got, want)
         if d:
             i = d[1]
@@ -197,7 +221,9 @@ def run_case(case):
 
     pre = sch["preload"]
     try:
-        t = Target(entry, tf, fill, rows_to_candles(rows[:pre]), case.get("tf_enum", False))
+        t = Target(entry, tf, fill, rows_to_candles(rows[:pre]), case.get("tf_enum", False), case.get("lifespan_s"))
+        if case.get("lifespan_s"):
+            stats["lifespan_cases"] = 1
         if case.get("tf_enum"):
             stats["timeframe_given_as_enum"] = 1
         ok = check(t, pre, "construction")
